@@ -170,7 +170,7 @@ func setDiff(a, b map[string]bool) (onlyA, onlyB []string) {
 func baseConf() conf.Configuration {
 	return conf.Configuration{Id: "verif", SourceType: conf.RedisTypeStandalone, TargetType: conf.RedisTypeStandalone, SourceAuthType: "auth", TargetAuthType: "auth",
 		SourcePasswordRaw: e2eSrcPw, TargetPasswordRaw: e2eTgtPw, Parallel: 3, HttpProfile: -1, TargetDB: -1, SenderCount: 8, SenderSize: 65535, SenderDelayChannelSize: 65535,
-		Metric: true, KeyExists: "rewrite", TargetReplace: true, TargetVersion: "5.0.7", BigKeyThreshold: 50 << 20, ScanKeyNumber: 7, Qps: 500000, SourceRdbParallel: 1}
+		Metric: true, KeyExists: "rewrite", TargetReplace: true, TargetVersion: "5.0.7", BigKeyThreshold: 50 << 20, ScanKeyNumber: 7, Qps: 5000, SourceRdbParallel: 1}
 }
 
 func runC06paths(r resIface, cfg *c06cfg, rng *prng.R, scratch string, idx int) {
